@@ -6,7 +6,7 @@
    spec_pw/spec_ph = published plane dimensions, spec_stride = pad_up pw align,
    plane_bytes = stride * ph, spec_off = documented plane offsets, spec_total = sum of plane_bytes. *)
 From Coq Require Import List ZArith.
-From LJT Require Import lib.Sweep lib.PadLemmas gen.GenSubsamp model.Geometry model.YuvCopy proofs.GeometryProofs proofs.YuvCopyProofs.
+From LJT Require Import lib.Sweep lib.PadLemmas gen.GenSubsamp model.Geometry model.YuvCopy model.RawData proofs.GeometryProofs proofs.YuvCopyProofs proofs.RawDataProofs.
 Import ListNotations.
 Local Open Scope Z_scope.
 
@@ -112,6 +112,42 @@ Example C20_ex_copy_loops :
   cfp_usetmpbuf 16 8 TJSAMP_422 = false /\ cfp_usetmpbuf 9 8 TJSAMP_422 = true /\
   in_plane (-5) 3 2 (-5) /\ in_plane (-5) 3 2 2 /\ ~ in_plane (-5) 3 2 3.
 Proof. exact ex_copy_loops. Qed.
+
+(* (7) the library-side quantities the copy-loop model assumes are those of the library's own statements (generated from
+   jutils.c, jdinput.c, jcmaster.c, jdmaster.c, jdcoefct.c): blocks per component, output size, scaled block size, rows per call *)
+Theorem C20_library_tie : library_tie_statement.
+Proof. exact library_tie_proof. Qed.
+Print Assumptions C20_library_tie.
+
+(* jpeg_read_raw_data / jpeg_write_raw_data as called by the per-plane functions: exactly one iMCU row per call, never
+   JERR_BUFFER_SIZE (`max_lines < lines_per_iMCU_row`) nor JWRN_TOO_MUCH_DATA, ceil(height / lines) calls *)
+Theorem C20_raw_protocols : forall maxv d height, 1 <= maxv -> 1 <= d -> 0 <= height ->
+  dtp_protocol height maxv d = RawOk (cdiv height (maxv * d)) /\
+  cfp_protocol height maxv = RawOk (cdiv height (maxv * DCTSIZE)).
+Proof. exact raw_protocols_ok. Qed.
+Print Assumptions C20_raw_protocols.
+
+(* tj3CompressFromYUVPlanes8, edge replication: all plane reads are in range and every intermediate cell the codec reads
+   was written in the same iteration *)
+Theorem C20_cfp_edge_replication : cfp_edge_statement.
+Proof. exact cfp_edge_proof. Qed.
+Print Assumptions C20_cfp_edge_replication.
+
+(* scratch buffers of tj3EncodeYUVPlanes8 / tj3DecodeYUVPlanes8: rows inside the malloc'ed block at any alignment slack,
+   wide enough, no unsigned-int wrap in the size computations *)
+Theorem C20_scratch_buffers : scratch_statement.
+Proof. exact scratch_proof. Qed.
+Print Assumptions C20_scratch_buffers.
+
+Example C20_ex_rawdata :
+  dtp_protocol 39 2 8 = RawOk 3 /\ cfp_protocol 35 4 = RawOk 2 /\
+  ljg_min_dct 3 8 = 3 /\ ljg_out_w 227 3 8 = 86 /\ ljg_wib 1 35 TJSAMP_420 = 3 /\ ljg_hib 0 39 TJSAMP_420 = 5 /\
+  ljg_rows_in_call 2 3 5 2 8 = 8 /\ ljg_rows_in_call 1 3 5 2 8 = 16 /\
+  cfp_iteration_ok 36 40 40 40 16 32 = true /\ cfp_iteration_ok 18 20 24 24 8 16 = true /\ cfp_iteration_ok 3 3 8 8 8 0 = true /\
+  cfp_iteration_ok 9 3 8 8 8 0 = false /\
+  scratch_ok (enc_tmp_size 3 2 1 2) (enc_tmp_rows 2) 64 31 (enc_tmp_rowoff 3 2 1) = true /\
+  scratch_ok (enc_tmp_size 3 2 1 2) (enc_tmp_rows 2) 64 33 (enc_tmp_rowoff 3 2 1) = false.
+Proof. exact ex_rawdata. Qed.
 
 (* non-vacuity: the hypotheses are satisfiable and the functions compute the published numbers *)
 Example C20_ex_valid_args : valid_samp TJSAMP_420 /\ valid_samp TJSAMP_GRAY /\ valid_samp TJSAMP_411 /\ valid_samp TJSAMP_441 /\
